@@ -4,6 +4,7 @@ pub mod sqlprobe;
 pub mod sql_where;
 pub mod budget;
 pub mod pagelocks;
+pub mod groupcommit;
 pub mod keyenc;
 pub mod keyenc_gen;
 pub mod keyenc_glue;
@@ -27,6 +28,7 @@ pub fn run(engine: &str, ctx: &Ctx) -> Report {
         "sql_where" => sql_where::run(ctx),
         "budget" => budget::run(ctx),
         "pagelocks" => pagelocks::run(ctx),
+        "groupcommit" => groupcommit::run(ctx),
         "keyenc" => keyenc::run(ctx),
         "simd" => simd::run(ctx),
         "sql_join" => sql_join::run(ctx),
